@@ -329,3 +329,106 @@ fn full_handler_trigger_interval() {
     kani::cover!(!viol && period.is_some() && prev_int.is_some() && bits(x, 12, 12) == 1);
     core::mem::forget(v);
 }
+
+// ------------------------------------------------------------------ stave mode (readout frame bookkeeping)
+fn leak_cfg_stave() -> &'static MockConfig {
+    let mut c = MockConfig::new();
+    c.check = Some(CheckCommands::All(CheckModeArgs { target: Some(System::ITS_Stave), path: CmdPathArg::default() }));
+    Box::leak(Box::new(c))
+}
+fn stave_validator(rb: &[u8; 64], pos: u64, words_before: u16) -> V {
+    let mut v = V::new(leak_cfg_stave(), fake_sender());
+    v.set_current_rdh(&RdhCru::from_buf(&rb[..]).unwrap(), pos);
+    super::cdp_tracker::verif_cdp_tracker::set_word_counter(&mut v.tracker, words_before + 1);
+    v
+}
+
+static mut PRF_CALLS: u32 = 0;
+fn stub_process_readout_frame_count<T: RDH, C: ChecksOpt + FilterOpt + CustomChecksOpt>(_v: &mut CdpRunningValidator<T, C>) {
+    unsafe { PRF_CALLS += 1 };
+}
+static mut STORE_CALLS: u32 = 0;
+fn stub_store_lane_data<C: CustomChecksOpt>(_v: &mut super::readout_frame::ItsReadoutFrameValidator<C>, _w: &[u8]) {
+    unsafe { STORE_CALLS += 1 };
+}
+// @harness id=full_handler_tdh_stave props=C13,C09,C01,C02,C07,C04 kind=full tier=quick fns=CdpRunningValidator::preprocess_tdh,ItsReadoutFrameValidator::new_frame,ItsReadoutFrameValidator::is_in_frame,CdpRunningValidator::set_current_rdh stubs=alloc::fmt::format,core::fmt::write,flume::Sender::send
+// Stave mode: a TDH without continuation opens a readout frame at its own offset unless one is open;
+// a continuation TDH never opens one.
+#[kani::proof]
+#[kani::stub(alloc::fmt::format, stub_format)]
+#[kani::stub(core::fmt::write, stub_fmt_write)]
+#[kani::stub(flume::Sender::send, stub_send)]
+#[kani::unwind(4)]
+fn full_handler_tdh_stave() {
+    let rb: [u8; 64] = kani::any();
+    let pos: u64 = kani::any();
+    kani::assume(pos < (1 << 62));
+    let nb: u16 = kani::any();
+    kani::assume(nb < 6000);
+    let mut v = stave_validator(&rb, pos, nb);
+    let open_before: bool = kani::any();
+    let prev_start: u64 = kani::any();
+    if open_before {
+        v.readout_frame_validator.as_mut().unwrap().new_frame(prev_start);
+    }
+    let w: [u8; 10] = kani::any();
+    v.preprocess_tdh(&w[..]);
+    let cont = bits(w80(&w), 14, 14) == 1;
+    let rfv = v.readout_frame_validator.as_ref().unwrap();
+    let here = word_pos(&rb, pos, nb);
+    assert!(rfv.is_in_frame() == (open_before || !cont), "[C13][C01][C02] a readout frame starts at a TDH without continuation");
+    let start = super::readout_frame::verif_rf_validator::frame_start_of(rfv);
+    if open_before {
+        assert!(start == Some(prev_start), "[C13][C07] an open frame keeps its start offset");
+    } else if !cont {
+        assert!(start == Some(here), "[C13][C07] the frame's start offset is the offset of its TDH");
+    } else {
+        assert!(start.is_none(), "[C13] a continuation TDH does not open a frame");
+    }
+    assert!((sent_errors() > 0) == !spec_tdh_sane(&w), "[C01][C02][C11] TDH sanity is reported as in the other modes");
+    core::mem::forget(v);
+}
+
+// @harness id=full_handler_tdt_stave props=C13,C09,C01,C02,C04 kind=full tier=quick fns=CdpRunningValidator::preprocess_tdt stubs=alloc::fmt::format,core::fmt::write,flume::Sender::send,CdpRunningValidator::process_readout_frame
+// Stave mode: the readout frame is processed exactly at a TDT with packet_done (after the TDT is stored).
+#[kani::proof]
+#[kani::stub(alloc::fmt::format, stub_format)]
+#[kani::stub(core::fmt::write, stub_fmt_write)]
+#[kani::stub(flume::Sender::send, stub_send)]
+#[kani::stub(CdpRunningValidator::process_readout_frame, stub_process_readout_frame_count)]
+#[kani::unwind(4)]
+fn full_handler_tdt_stave() {
+    let rb: [u8; 64] = kani::any();
+    let mut v = stave_validator(&rb, 64, 2);
+    let w: [u8; 10] = kani::any();
+    v.preprocess_tdt(&w[..]);
+    let done = bits(w80(&w), 64, 64) == 1;
+    assert!(unsafe { PRF_CALLS } == done as u32, "[C13][C01][C02] a readout frame ends (and is processed) exactly at a TDT with packet_done");
+    assert!(*v.status_words.tdt().unwrap() == Tdt::from_buf(&w[..]).unwrap(), "[C02] the TDT is stored before the frame is processed");
+    assert!((sent_errors() > 0) == !spec_tdt_sane(&w), "[C01][C02][C11] TDT sanity is reported as in the other modes");
+    core::mem::forget(v);
+}
+
+// @harness id=full_handler_data_word_stave props=C13,C11,C01,C02,C04 kind=full tier=quick fns=CdpRunningValidator::preprocess_data_word,CdpRunningValidator::process_ib_data_word,CdpRunningValidator::process_ob_data_word stubs=alloc::fmt::format,core::fmt::write,flume::Sender::send,ItsReadoutFrameValidator::store_lane_data
+// Stave mode: every inner/outer barrel data word (id[7:5] = 001 / 010) is stored for the ALPIDE checks exactly once.
+#[kani::proof]
+#[kani::stub(alloc::fmt::format, stub_format)]
+#[kani::stub(core::fmt::write, stub_fmt_write)]
+#[kani::stub(flume::Sender::send, stub_send)]
+#[kani::stub(super::readout_frame::ItsReadoutFrameValidator::store_lane_data, stub_store_lane_data)]
+#[kani::unwind(4)]
+#[kani::solver(minisat)]
+fn full_handler_data_word_stave() {
+    let rb: [u8; 64] = kani::any();
+    let mut v = stave_validator(&rb, 64, 2);
+    let ihw: [u8; 10] = kani::any();
+    v.status_words.replace_ihw(Ihw::from_buf(&ihw[..]).unwrap());
+    v.tracker.set_data_seen();
+    let w: [u8; 10] = kani::any();
+    let id = w[9];
+    kani::assume(!(spec_is_ob_id(id) && !spec_data_id_valid(id)));
+    v.preprocess_data_word(&w[..]);
+    let stored = spec_is_ib_id(id) || spec_is_ob_id(id);
+    assert!(unsafe { STORE_CALLS } == stored as u32, "[C13][C01][C02] lane data of every IB/OB data word is stored exactly once for the frame checks");
+    core::mem::forget(v);
+}
